@@ -505,17 +505,23 @@ def keyword_word_boundary_rule(ctx, res, rule: str) -> None:
     n = 0
     for f in sorted((f for f in idx.functions.values() if f.unit is unit), key=lambda f: f.qualname):
         for x in walk_local(f.node):
-            if not (isinstance(x, ast.Compare) and len(x.ops) == 1 and isinstance(x.ops[0], (ast.Eq, ast.NotEq))):
-                continue
-            sides = [x.left, x.comparators[0]]
-            sl = next((e for e in sides if isinstance(e, ast.Subscript) and isinstance(e.slice, ast.Slice)), None)
-            kw = next((e for e in sides if isinstance(e, ast.Constant) and isinstance(e.value, str) and _kw.iskeyword(e.value)), None)
-            if sl is None or kw is None:
-                continue
+            bounded_call = isinstance(x, ast.Call) and isinstance(x.func, ast.Attribute) and x.func.attr in ("endswith", "startswith") and len(x.args) >= 2 \
+                and isinstance(x.args[0], ast.Constant) and isinstance(x.args[0].value, str) and _kw.iskeyword(x.args[0].value)
+            if bounded_call:
+                # `code.endswith("from", 0, i + 1)` is the slice test `code[i - 3 : i + 1] == "from"` in another spelling
+                sl, kw, lo = x, x.args[0], None
+            else:
+                if not (isinstance(x, ast.Compare) and len(x.ops) == 1 and isinstance(x.ops[0], (ast.Eq, ast.NotEq))):
+                    continue
+                sides = [x.left, x.comparators[0]]
+                sl = next((e for e in sides if isinstance(e, ast.Subscript) and isinstance(e.slice, ast.Slice)), None)
+                kw = next((e for e in sides if isinstance(e, ast.Constant) and isinstance(e.value, str) and _kw.iskeyword(e.value)), None)
+                if sl is None or kw is None:
+                    continue
+                lo = sl.slice.lower
             n += 1
             ok = False
             # a slice that starts at a computed word start is a whole word already
-            lo = sl.slice.lower
             if lo is not None:
                 if any(isinstance(c, ast.Call) and call_name(c) == "_find_word_start" for c in ast.walk(lo)):
                     ok = True
@@ -535,7 +541,7 @@ def keyword_word_boundary_rule(ctx, res, rule: str) -> None:
                 # when the slice compared equal is reached only through a test that looks at the character in front
                 from ..cfg import CFG
                 cfg = CFG(f.node)
-                eq = isinstance(x.ops[0], ast.Eq)
+                eq = bounded_call or isinstance(x.ops[0], ast.Eq)
                 BOUNDARY = ("_is_id_char", "isalnum", "isidentifier", "_find_word_start")
 
                 def conjuncts(e):
